@@ -108,6 +108,49 @@ def hyp_lists(ctx, n):
     ctx.floor('records>=50', 0.15, 'list')
 
 
+def sized_message(codec, size, variant):
+    """a packaged-configuration message whose encoded record is exactly `size` bytes (size >= 60)"""
+    msg = {'MTI': '1240', 'DE2': '5' * 16, 'DE3': '%06d' % (variant % 1000000)}
+    base = len(refcodec.encode(PACKAGED, codec, False, msg))
+    need = size - base
+    for key in ('DE72', 'DE54', 'DE111', 'DE127', 'DE63', 'PDS0001'):
+        if need <= 0:
+            break
+        overhead = 10 if key.startswith('PDS') else 3      # LLL prefix (+ tag and length of the sub-element)
+        if need <= overhead:
+            # too small for another element: grow DE2 instead (LLVAR, up to 99)
+            msg['DE2'] = msg['DE2'] + '7' * need
+            need = 0
+            break
+        take = min(992 if key.startswith('PDS') else 999, need - overhead)
+        if 0 < need - overhead - take <= 10:
+            take -= 12
+        msg[key] = ('%s-%d ' % (key, variant) * 200)[:take]
+        need -= overhead + take
+    return msg
+
+
+def sweep_sizes(ctx, lo, hi, codec):
+    """one- and two-record files whose record size takes every value in [lo, hi): the record end (and the next length
+    prefix) lands on every offset relative to the 1012-byte payload edge"""
+    n = 0
+    for size in range(lo, hi):
+        msg = sized_message(codec, size, size)
+        if len(refcodec.encode(PACKAGED, codec, False, msg)) != size:
+            ctx.labels['size-not-reached'] += 1
+            continue
+        second = {'MTI': '1442', 'DE2': '4' * 12, 'DE71': size % 100000000}
+        for msgs in ([msg], [second, msg, second]):
+            n += 1
+            res = check_list(PACKAGED, False, codec, msgs, True, 'with')
+            if res:
+                ctx.report(res[0], {'kind': 'list', 'config': None, 'codec': codec, 'msgs': msgs, 'blocked': True, 'api': 'with'}, res[1])
+    ctx.bulk(n, nontrivial_distinct=n, label='size-sweep')
+    ctx.enumerated(f'1014-blocked files with a record of every size in 60..6000 bytes (alone and between two small records), {codec}')
+    if lo <= 2021 < hi:
+        ctx.sample({'records': 1, 'record_bytes': 2021, 'codec': codec, 'blocked': True})
+
+
 # ---------------------------------------------------------------------------------------------- state machine
 
 class World:
@@ -279,6 +322,8 @@ def tasks(tier, seed):
     t = []
     for i in range(6 if not full else 16):
         t.append(('machine', dict(runs=25 if not full else 150, steps=40 if not full else 80)))
+    for lo in range(60, 6001, 540):
+        t.append(('sweep_sizes', dict(lo=lo, hi=min(lo + 540, 6001), codec='cp500' if (lo // 540) % 2 else 'latin_1')))
     for i in range(6 if not full else 16):
         t.append(('hyp_lists', dict(n=50 if not full else 300)))
     return t
